@@ -13,7 +13,7 @@ BAD = 'def bad():\n    return "xyz"\n<start> ::= <k> <v>\n<k> ::= "k"\n<v> ::= <
 
 
 def run(ctx: Ctx) -> None:
-    names = ["generators", "generators2", "generators_eq"]
+    names = [n for n, e in evo.cat().items() if e.get("gens")]
     b = evo.closure_explore(ctx, names, {"C16"}, depth=2 if ctx.quick else 3, frontier_cap=16 if ctx.quick else 40, run_cap=200 if ctx.quick else 600)
     ctx.log(f"closure: {b}")
     c = evo.loop_explore(ctx, names, {"C16"}, bound=1 if ctx.quick else 2, cap=2500 if ctx.quick else 40000)
